@@ -119,6 +119,7 @@ func (s *scriptReader) Read(p []byte) (int, error) {
 type upInfo struct {
 	Param, Name string
 	Size, Up    int64
+	Attempt     int // Request.RetryAttempt when the callback ran
 }
 
 type sentReq struct {
@@ -244,7 +245,7 @@ func (g *gen) send(in reqIn) sentReq {
 	if in.Callback != "" {
 		rq.SetUploadCallbackWithInterval(func(info req.UploadInfo) {
 			mu.Lock()
-			out.Ups = append(out.Ups, upInfo{info.ParamName, info.FileName, info.FileSize, info.UploadedSize})
+			out.Ups = append(out.Ups, upInfo{info.ParamName, info.FileName, info.FileSize, info.UploadedSize, rq.RetryAttempt})
 			mu.Unlock()
 		}, intervals[in.Callback])
 	}
